@@ -43,7 +43,20 @@ def common_oracle(case, obs, name, tolerance_check):
         return '%s: kept fixes %r do not contain the first and the last observation (n=%d)' % (name, k, n)
     if obs['src'] != n:
         return '%s modified the source track' % name
-    if tolerance_check:
+    if tolerance_check and n > 200:                    # long tracks: the same check in binary64 (a margin of 1e-9 of the extent)
+        pts = case['pts']
+        def fd(p, a, b):
+            L2 = (b[0] - a[0]) ** 2 + (b[1] - a[1]) ** 2
+            t = 0.0 if L2 == 0 else max(0.0, min(1.0, ((p[0] - a[0]) * (b[0] - a[0]) + (p[1] - a[1]) * (b[1] - a[1])) / L2))
+            return math.hypot(p[0] - a[0] - t * (b[0] - a[0]), p[1] - a[1] - t * (b[1] - a[1]))
+        j = 0
+        for i in range(n):
+            while j + 1 < len(k) - 1 and k[j + 1] <= i:
+                j += 1
+            d = min(fd(pts[i], pts[k[j]], pts[k[j + 1]]), min(fd(pts[i], pts[a], pts[b]) for a, b in zip(k, k[1:])) if len(k) < 60 else 1e300)
+            if d > case['eps'] * (1 + 1e-9) + 1e-6:
+                return '%s: input fix %d of %d is %r away from the simplified polyline (%d fixes kept), tolerance %r' % (name, i, n, d, len(k), case['eps'])
+    elif tolerance_check:
         pts = case['pts']
         for i in range(n):
             d = min(seg_dist(pts[i], pts[a], pts[b]) for a, b in zip(k, k[1:])) if len(k) > 1 else seg_dist(pts[i], pts[k[0]], pts[k[0]])
@@ -113,6 +126,19 @@ def gen_dp(rng, n, tier):
             c = rng.choice([v for v in cands if v > 0] or [sc])
             eps = c * rng.choice([0.9, 0.99, 1.01, 1.1, 1.2, 1.35])
         out.append({'pts': pts, 'eps': eps, 'tmode': rng.choice(['inc', 'inc', 'equal', 'dec', 'shuffle'])})
+    for _ in range(max(2, n // 300)):
+        # long tracks (more than a thousand fixes), of the shapes where the farthest fix from the chord's line is not the farthest from the chord:
+        # out-and-back along a street, a closed circle, a collinear run overshooting its end (oracle only)
+        shape = rng.choice(['deadend', 'circle', 'overshoot'])
+        m = rng.choice([1201, 1501])
+        if shape == 'deadend':
+            pts = [[float(i), 0.0] for i in range(0, 2 * m // 3)] + [[float(2 * m // 3 - j), 0.0] for j in range(m - 2 * m // 3)]
+        elif shape == 'circle':
+            pts = [[100 * math.cos(2 * math.pi * i / (m - 1)), 100 * math.sin(2 * math.pi * i / (m - 1))] for i in range(m - 1)]
+            pts.append(list(pts[0]))
+        else:
+            pts = [[float(i) * 0.5, 0.0] for i in range(m - 200)] + [[(m - 200) * 0.5 - 0.5 * j, 0.0] for j in range(200)]
+        out.append({'pts': pts, 'eps': rng.choice([0.01, 0.5, 5, 50]), 'tmode': 'inc'})
     return out
 
 
@@ -125,7 +151,7 @@ def run_dp(case):
 
 
 def coq_dp(case, obs):
-    if 'exc' in obs:
+    if 'exc' in obs or len(case['pts']) > 200:
         return None
     return '(%s, %s, %s%%nat)' % (coq_list('(%s, %s)' % (fl(a), fl(b)) for a, b in case['pts']), fl(case['eps']), coq_list(map(str, obs['kept'])))
 
